@@ -18,7 +18,8 @@ LEVEL_TEXT = ('Generated Linen module programs (compact/setup, depth <= 3, expli
               ' instance fed inputs of different widths, setup members clashing with later compact calls, shared'
               ' instances through bind/unbind/clone/copy, compact_name_scope methods of sub-modules.'
               ' Round f: write_first (first access to a mutable collection is put_variable), shared_repeated_parent (K12), sow_perturb_clash (K13).'
-              ' Round g: bound_partial_touch (.variables / unbind of a bound sub-module after a partial use).')
+              ' Round g: bound_partial_touch (.variables / unbind of a bound sub-module after a partial use).'
+              ' Round h: lazy_init_mutable (shape-only init with non-default mutable filters), fallback_rng (init vs apply with a missing rng stream; K16).')
 LEVEL_NOTE = ('The reference interpreter in vf/gen/linen_prog.py encodes the documented naming rules and is trusted; RNG-using children are '
               'excluded from the standalone comparison (their keys are position-addressed by design, C09).')
 TECHNIQUE = 'runtime monitoring: reference-model (naming/shape interpreter) + relational oracles + single-edit fault enumeration on the real init/apply'
